@@ -8,10 +8,13 @@ import (
 	"os"
 	"path"
 	"regexp"
+	"runtime"
 	"sync"
 	"time"
 
 	"github.com/tevino/abool"
+
+	"github.com/safing/portbase/utils/renameio"
 )
 
 const (
@@ -158,9 +161,34 @@ func saveRegistry(lock bool) error {
 	}
 
 	// write file
-	// TODO: write atomically (best effort)
 	filePath := path.Join(rootStructure.Path, registryFileName)
-	return os.WriteFile(filePath, data, 0o0600)
+	return writeFileAtomically(filePath, data, 0o0600)
+}
+
+// writeFileAtomically replaces the file with the given data in one step: a
+// process that is stopped in the middle leaves the previous file behind, not
+// an empty or half-written one.
+func writeFileAtomically(filePath string, data []byte, perm os.FileMode) error {
+	t, err := renameio.TempFile("", filePath)
+	if err != nil {
+		return err
+	}
+	defer func() {
+		_ = t.Cleanup()
+	}()
+
+	// Set permissions before writing data, in case the data is sensitive.
+	if runtime.GOOS != "windows" {
+		if err := t.Chmod(perm); err != nil {
+			return err
+		}
+	}
+
+	if _, err := t.Write(data); err != nil {
+		return err
+	}
+
+	return t.CloseAtomicallyReplace()
 }
 
 func registryWriter() {
